@@ -29,7 +29,7 @@ TraceStep ==
   \/ IsEvent("imports")  /\ CImports(Ev.paths, Ev.quals)
   \/ IsEvent("qual")     /\ CPkgQualifier(Ev.path, Ev.found, Ev.res)
   \/ IsEvent("newscope") /\ CNewScope(ToSet(Ev.visible))
-  \/ IsEvent("scopesees") /\ CScopeSees(ToSet(Ev.visible))
+  \/ IsEvent("scopesees") /\ CScopeSees(ToSet(Ev.visible) \cup ToSet(Ev.mustseen), ToSet(Ev.must))
   \* a "panic" event matches no action: the trace is rejected there
 
 TraceNext == (l <= Len(Trace) => NoEffect) /\ TraceStep
